@@ -135,10 +135,10 @@ _ADD = {
  "C03": " Added later: the receiving application enlarges its window at drawn moments, also in mid-stall; TestC03WindowShrunk lowers it (at a drawn time, or at the moment the delivery queue is full with acknowledged segments parked behind it) and requires the transfer to resume and complete with every byte in order.",
  "C04": " Added later: timeouts are recognised by the model itself (a retransmitted segment whose fast-ack counter was just set to 0), not from the library's LostSegs counter; TestC04SessionWindow applies the sender-side window rule to real sessions with FEC, loss and stalled readers (the peer's window is read from regular data packets as they arrive; FEC-recovered packets must not count as news); a literal regression case for the repaired ack-only admission.",
  "C05": " Added later: a quarter of the hostile datagrams go through the simulated socket and the library's own receive loops, up to 65 000 bytes long; a literal regression case for the repaired oversize PUSH.",
- "C06": " Added later: a third of the corrupted / short / empty datagrams go through the simulated socket and the library's own receive loops.",
+ "C06": " Added later: a third of the corrupted / short / empty datagrams go through the simulated socket and the library's own receive loops; the stored CRC is also replaced by values a shortcut might treat specially (0, all ones, the complement, the byte-swapped value), with and without a payload change.",
  "C09": " Added later: a third of the session cases transmit through the sendmmsg batch path (verif hook) with drawn short-write counts; the entropy test crosses the 2^24-draw re-seeding.",
  "C10": " Added later: the listed parity finding is excluded by the id of the straddling FEC group only; every parity packet must be exactly as long as the longest data packet of its group; idle gaps beyond the encoder's 500 ms limit with MTU calls placed inside them; OOB packets at and beyond the size limit; readers stalled at both ends (probe and announcement in one flush); a literal regression case for the repaired raw SetMtu.",
- "C11": " Added later: conversation ids from the whole 32-bit space (0 and 0xffffffff favoured, reconnect to id 0), any clock offset, an immediate oracle (once the listener has been handed the first data packet of a peer's conversation its table holds that conversation for that address), and E7 (datagrams from a third real socket).",
+ "C11": " Added later: conversation ids from the whole 32-bit space (0 and 0xffffffff favoured, reconnect to id 0), any clock offset, an immediate oracle (once the listener has been handed the first data packet of a peer's conversation its table holds that conversation for that address), and E7 (datagrams from a third real socket); TestC11Restart: both applications close, then the same address starts again (same or new conversation id, 0..2 other peers in between, 2..4 incarnations): exactly one Accept and the new stream delivered each time.",
  "C13": " Added later: in a third of the session cases X is a session handed out by a listener, which may be closed while the session goes on; literal regression cases for the two repaired wake-up defects.",
  "C14": " Added later: transport faults during the calls and during Close, a third of the programs over real loopback UDP sockets, Close while other goroutines call methods of the same session, all listener methods, programs that start just before the entropy source re-seeds.",
  "C15": " Added later: E7 (real sockets owned by the library: descriptors and goroutines back to the baseline after Close in four orders, also in mid-transfer and under a storm of first packets from new peers), OOB calls on closed sessions under the pool sanitizer, a literal regression case for sessions nobody accepted, and a real-time test that feeds a listener first datagrams from 1 to 168 peers (around its accept backlog of 128) through a hand-fed transport, accepts a few, closes everything and requires Close to return, the reader to end and every goroutine to be gone.",
